@@ -160,16 +160,19 @@ theorem default_filter_table :
     defaultFilterFor "36" = some "Track3Filter" ∧ defaultFilterFor "45" = some "Track1Filter" ∧
     defaultFilterFor "52" = some "PINFilter" := by decide
 
-/-- the filter functions have the source text the model was written against (a changed body
-breaks this `rfl`, whatever the constants say) -/
+/-- the filter functions have the source text the model was written against, in the translator's
+NORMAL FORM (harness/cmd/extract/normsrc.go: `if` init statements hoisted, `else` after a returning
+branch flattened, parameters / locals renamed p1.. / v1.. in order of declaration, package constants
+replaced by their values) — a changed body breaks this `rfl`, a renamed variable or constant or an
+if/else written as an early return does not -/
 theorem filter_sources_expected :
-    Gen.srcPANFilter = "func(in string, data field.Field) string { if utf8.RuneCountInString(in) < panFistIndex+panLastIndex { return in } return in[0:panFistIndex] + panPattern + in[len(in)-panLastIndex:] }" ∧
-    Gen.srcPINFilter = "func(in string, data field.Field) string { if utf8.RuneCountInString(in) < pinFirstIndex+pinLastIndex { return in } return in[0:pinFirstIndex] + pinPattern + in[len(in)-pinLastIndex:] }" ∧
-    Gen.srcTrack1Filter = "func(in string, data field.Field) string { track := field.Track1{} if err := newTrackData(in, &track); err != nil { return in } track.PrimaryAccountNumber = PANFilter(track.PrimaryAccountNumber, nil) return getTrackDataString(in, &track) }" ∧
-    Gen.srcTrack2Filter = "func(in string, data field.Field) string { track := field.Track2{} if err := newTrackData(in, &track); err != nil { return in } track.PrimaryAccountNumber = PANFilter(track.PrimaryAccountNumber, nil) return getTrackDataString(in, &track) }" ∧
-    Gen.srcTrack3Filter = "func(in string, data field.Field) string { track := field.Track3{} if err := newTrackData(in, &track); err != nil { return in } track.PrimaryAccountNumber = PANFilter(track.PrimaryAccountNumber, nil) return getTrackDataString(in, &track) }" ∧
-    Gen.src_newTrackData = "func newTrackData(in string, track field.Field) error { if err := track.SetBytes([]byte(in)); err != nil { return ErrCreatingNewTrackData } return nil }" ∧
-    Gen.src_getTrackDataString = "func getTrackDataString(in string, track field.Field) string { if converted, packErr := track.String(); packErr != nil { return in } else { return converted } }" :=
+    Gen.srcPANFilter = "func(p1 string, p2 field.Field) string { if utf8.RuneCountInString(p1) < 4+4 { return p1 } return p1[0:4] + \"****\" + p1[len(p1)-4:] }" ∧
+    Gen.srcPINFilter = "func(p1 string, p2 field.Field) string { if utf8.RuneCountInString(p1) < 2+2 { return p1 } return p1[0:2] + \"****\" + p1[len(p1)-2:] }" ∧
+    Gen.srcTrack1Filter = "func(p1 string, p2 field.Field) string { v1 := field.Track1{} v2 := newTrackData(p1, &v1) if v2 != nil { return p1 } v1.PrimaryAccountNumber = PANFilter(v1.PrimaryAccountNumber, nil) return getTrackDataString(p1, &v1) }" ∧
+    Gen.srcTrack2Filter = "func(p1 string, p2 field.Field) string { v1 := field.Track2{} v2 := newTrackData(p1, &v1) if v2 != nil { return p1 } v1.PrimaryAccountNumber = PANFilter(v1.PrimaryAccountNumber, nil) return getTrackDataString(p1, &v1) }" ∧
+    Gen.srcTrack3Filter = "func(p1 string, p2 field.Field) string { v1 := field.Track3{} v2 := newTrackData(p1, &v1) if v2 != nil { return p1 } v1.PrimaryAccountNumber = PANFilter(v1.PrimaryAccountNumber, nil) return getTrackDataString(p1, &v1) }" ∧
+    Gen.src_newTrackData = "func newTrackData(p1 string, p2 field.Field) error { v1 := p2.SetBytes([]byte(p1)) if v1 != nil { return ErrCreatingNewTrackData } return nil }" ∧
+    Gen.src_getTrackDataString = "func getTrackDataString(p1 string, p2 field.Field) string { v1, v2 := p2.String() if v2 != nil { return p1 } return v1 }" :=
   ⟨rfl, rfl, rfl, rfl, rfl, rfl, rfl⟩
 
 /-- the track grammars the model's parsers were written against -/
